@@ -1098,6 +1098,41 @@ func (c *oblCtx) obligSlice(n *ast.SliceExpr) {
 		if _, ok := c.idxBound(es(e), n.X); ok {
 			return true
 		}
+		// a local every definition of which is len(x), a position inside x (the key of a range over x) or zero:
+		// it never exceeds len(x), which is all a slice bound needs
+		if id := identOf(e); id != nil && c.fn != nil && !c.reassigned(x) {
+			if obj, isVar := objOf(c.info(), id).(*types.Var); isVar && !obj.IsField() {
+				defs := c.defsOf(obj)
+				all := len(defs) > 0
+				for _, d := range defs {
+					okDef := false
+					if d == nil {
+						okDef = true // zero value
+					} else if k, ok := c.constInt(d); ok && k == 0 {
+						okDef = true
+					} else if la, ok := c.lenArg(d); ok && la == x {
+						okDef = true
+					} else if kid := identOf(d); kid != nil {
+						kobj := objOf(c.info(), kid)
+						ast.Inspect(c.fn, func(m ast.Node) bool {
+							if rs, ok := m.(*ast.RangeStmt); ok && rs.Key != nil && identOf(rs.Key) != nil && c.info().Defs[identOf(rs.Key)] == kobj && es(rs.X) == x {
+								okDef = true
+							}
+							return true
+						})
+						if okDef && c.reassigned(kid.Name) {
+							okDef = false
+						}
+					}
+					if !okDef {
+						all = false
+					}
+				}
+				if all {
+					return true
+				}
+			}
+		}
 		// len(x)-k with len(x) >= k
 		if be, ok := ast.Unparen(e).(*ast.BinaryExpr); ok && be.Op == token.SUB {
 			if l, ok := c.lenArg(be.X); ok && l == x {
